@@ -48,7 +48,7 @@ type gcase struct {
 
 // spellings of the atoms of CssGrammar.tla (one token each, except the separators and the custom-property groups)
 var gspell = map[string][]string{
-	"ident":     {"a", "b", "Foo", "x-y", "_z9", "DIV", "h1", "solid"},
+	"ident":     {"a", "b", "Foo", "x-y", "_z9", "DIV", "h1", "solid", `\0000411`, `x\00004a9`}, // (six-digit escapes followed by a further hex digit)
 	"prop":      {"color", "Margin-Top", "B", "x", "WIDTH", "-webkit-Box", "font"},
 	"important": {"important", "IMPORTANT", "Important"},
 	"num":       {"0", "1", "42", "1.5", ".5", "1e3", "-1", "+2"},
@@ -244,8 +244,16 @@ func grun(w *tr.Writer, d *gdoc, extra tr.E) bool {
 		open[k] = v
 	}
 	w.Ev("Open", open)
-	ok := len(obs) == len(exp)
-	for k, o := range obs {
+	ok := true
+	next := 0
+	for _, o := range obs {
+		// inline lists: a comment between declarations reported as a unit of its own where none is expected (left open)
+		if d.c.Mode == "inline" && o.GT == "Comment" && (next >= len(d.c.Units) || d.c.Units[next].G != "Comment") {
+			w.Ev("Unit", tr.E{"k": next + 1, "gt": "Comment", "m": -1, "optional": true})
+			continue
+		}
+		k := next
+		next++
 		ev := tr.E{"k": k + 1, "gt": o.GT, "m": k + 1}
 		if k >= len(d.c.Units) {
 			ev["m"], ev["diff"] = -1, "extra"
@@ -259,6 +267,7 @@ func grun(w *tr.Writer, d *gdoc, extra tr.E) bool {
 		}
 		w.Ev("Unit", ev)
 	}
+	ok = ok && next == len(exp)
 	w.Ev("Finish", tr.E{"n": len(obs)})
 	return ok
 }
